@@ -71,6 +71,39 @@ def _dom():
     return D
 
 
+class OpTimeout(BaseException):
+    pass
+
+
+GEN = {'timeouts': 0, 'poison': set()}         # real-code calls that ran into the time limit while *generating* (budget, see generate)
+GEN_TIMEOUT_BUDGET = 40
+
+
+OP_LIMIT = {'seconds': 0.5}
+
+
+def limited(fn, seconds=None):
+    """run a call into the real code under a CPU-time limit of its own (SIGVTALRM: independent of the framework's
+    per-case SIGALRM limit and of the load of the machine); a faulty tree may loop for ever in any operation"""
+    import signal, gc
+
+    def handler(*a):
+        raise OpTimeout()
+    if seconds is None:
+        seconds = OP_LIMIT['seconds']
+    was = gc.isenabled()
+    gc.disable()          # a full collection over the outcomes of 10^5 cases must not be charged to the operation
+    old = signal.signal(signal.SIGVTALRM, handler)
+    signal.setitimer(signal.ITIMER_VIRTUAL, seconds)
+    try:
+        return fn()
+    finally:
+        signal.setitimer(signal.ITIMER_VIRTUAL, 0)
+        signal.signal(signal.SIGVTALRM, old)
+        if was:
+            gc.enable()
+
+
 class World:
     def __init__(self, pool):
         D = _dom()
@@ -124,7 +157,17 @@ class World:
         return a is b
 
     def run(self, op):
-        """execute one operation; returns the canonical error name or 'ok'"""
+        """execute one operation under a time limit; returns the canonical error name, 'ok', or 'timeout' (the real
+        code did not return: the objects are left in an unknown, possibly huge state and the world is dead)"""
+        if getattr(self, 'dead', False):
+            return 'timeout'
+        try:
+            return limited(lambda: self._run(op))
+        except OpTimeout:
+            self.dead = True
+            return 'timeout'
+
+    def _run(self, op):
         D = self.D
         k = op[0]
         a = [int(x) for x in op[1:]]
@@ -390,6 +433,8 @@ def run_history(line, peek=False):
     err = 'ok'
     for op in ops:
         err = w.run(op)
+        if err == 'timeout':
+            return w, 'timeout'
         if err in ('RecursionError', 'bad'):
             break
         if op[0] in ('ap', 'in', 'si', 'ib', 'ia', 'rp', 'ex', 'xn', 'sa', 'st') and 0 <= int(op[1]) < len(w.reg):
@@ -410,6 +455,16 @@ def impl(case, aux):
     D = _dom()
     D.CharacterData._dummyChildNodes[:] = []
     w, err = run_history(case.line, peek=True)
+    if err == 'timeout':
+        # confirm with a fresh world and a four times longer limit before calling it a hang
+        D.CharacterData._dummyChildNodes[:] = []
+        OP_LIMIT['seconds'] = 2.0
+        try:
+            w, err = run_history(case.line, peek=True)
+        finally:
+            OP_LIMIT['seconds'] = 0.5
+        if err == 'timeout':
+            return 'err:timeout'      # an operation of the real code did not return
     if err == 'cyclic':
         return 'cyclic'
     if err == 'bad':
@@ -699,11 +754,18 @@ def exhaustive(ctx, pool, depth_full, depth_enabled, cap, prefix=()):
         nxt = []
         for hist in frontier:
             base_line = line_of(pool, hist)
-            w0, _ = run_history(base_line)
+            if GEN['timeouts'] >= GEN_TIMEOUT_BUDGET:
+                return
+            w0, err0 = run_history(base_line)
+            if err0 == 'timeout':
+                GEN['timeouts'] += 1
+                continue
             for op in full:
                 if depth > depth_full and not enabled(w0, op):
                     continue
                 if makes_cycle(w0, op):
+                    continue
+                if tuple(op) in GEN['poison']:      # this very operation did not return once: it is not tried again
                     continue
                 if depth == depth_enabled:          # last level: nothing is expanded from here, only judged
                     total += 1
@@ -721,7 +783,22 @@ def exhaustive(ctx, pool, depth_full, depth_enabled, cap, prefix=()):
                 if total >= cap:
                     ctx.count('exhaustive:capped')
                     return
-                key = w.dump('').partition(' @ ')[0]      # the state, without the oracle flags logged on the way
+                if e == 'timeout' or err == 'timeout':
+                    # the real code did not return: the case is yielded (it will be judged), nothing is expanded from it,
+                    # and after a few of them the enumeration stops (a faulty tree must not make the check hang)
+                    GEN['timeouts'] += 1
+                    GEN['poison'].add(tuple(op))
+                    ctx.count('exhaustive:timeouts')
+                    if GEN['timeouts'] >= GEN_TIMEOUT_BUDGET:
+                        return
+                    continue
+                try:
+                    key = limited(lambda: w.dump(''), 2.0).partition(' @ ')[0]   # the state, without the oracle flags
+                except OpTimeout:
+                    GEN['timeouts'] += 1
+                    if GEN['timeouts'] >= GEN_TIMEOUT_BUDGET:
+                        return
+                    continue
                 if key not in seen and e not in ('diverge', 'RecursionError'):
                     seen.add(key)
                     nxt.append(hist + [op])
@@ -794,6 +871,9 @@ def random_history(rng, maxlen, malformed):
         if op[0] not in ('sa', 'st'):
             touched.add(int(op[1]))
             if op[0] == 'cl': touched.add(len(w.reg) - 1)
+        if e == 'timeout':
+            GEN['timeouts'] += 1
+            break
         if e in ('diverge', 'RecursionError'):
             break
     return line0, ops
@@ -802,6 +882,8 @@ def random_history(rng, maxlen, malformed):
 def generate(ctx):
     rng = ctx.rng
     quick = ctx.tier == 'quick'
+    GEN['timeouts'] = 0
+    GEN['poison'] = set()
     if quick:
         yield from exhaustive(ctx, POOL_X, 2, 4, 110000)
     else:
@@ -815,6 +897,9 @@ def generate(ctx):
         yield from exhaustive(ctx, ALIAS_POOL, 1, 2 if quick else 3, 3000 if quick else 60000, prefix=prefix)
     n = 2500 if quick else 20000
     for i in range(n):
+        if GEN['timeouts'] >= GEN_TIMEOUT_BUDGET:
+            ctx.say('generation stopped early: %d real-code calls did not return within their time limit' % GEN['timeouts'])
+            return
         # two thirds of the histories stay inside the documented domain to their end (so the list model judges them),
         # the others mix in ~15% malformed operations and some attached arguments
         line0, ops = random_history(rng, 40 if i % 3 == 0 else 12, 0.15 if i % 3 == 1 else 0)
@@ -872,7 +957,7 @@ def focus_cases(rng, kinds, n_hist, per_hist):
             w, err = run_history(base)
         except Exception:
             continue
-        if err in ('cyclic', 'RecursionError', 'bad', 'diverge'):
+        if err in ('cyclic', 'RecursionError', 'bad', 'diverge', 'timeout'):
             continue
         nreg = len(w.reg)
         cands = []
